@@ -194,7 +194,7 @@ func c03Scenario(c *choice.Ctx, rep *report.R, queries []c03Query) {
 			case "error":
 				uq.Fail()
 			case "reply-late-5.9s":
-				time.Sleep(5900 * time.Millisecond)
+				hsleep(5900 * time.Millisecond)
 				wait()
 				uq.Reply(env.Answer(uq.Msg, 1, 60).Encode(false))
 			}
@@ -205,7 +205,7 @@ func c03Scenario(c *choice.Ctx, rep *report.R, queries []c03Query) {
 	var firstAt time.Duration = -1
 	for _, at := range []time.Duration{0, 6 * time.Second, 6*time.Second + 50*time.Millisecond, 20 * time.Second} {
 		if d := t0.Add(at).Sub(time.Now()); d > 0 {
-			time.Sleep(d)
+			hsleep(d)
 		}
 		wait()
 		n := cl.count()
